@@ -17,6 +17,14 @@ def gen_case(rng, root):
     pool = [k for k in W.pool() if k not in ch.owners]
     shared = rng.choice(pool)
     second = rng.choice([k for k in pool if k is not shared])
+    # sometimes the shared functionary is a gpg key: the master is authorised and a signing subkey (or the
+    # master itself) signs, so the id in the file name and signature differs from the authorised id
+    gpg_signer = None
+    if W.gpg_available() and rng.random() < 0.3:
+        mname = rng.choice(["one_sub", "two_subs", "no_sub"])
+        shared = W.gpg_key(mname)
+        subs = [x for x in (shared.pub.get("subkeys") or {}) if x in W.SIGNING_SUBKEYS]
+        gpg_signer = W.gpg_key(mname, rng.choice(subs)) if subs and rng.random() < 0.8 else shared
     notice = rng.random() < 0.5
     ch.closed = notice
     same_arts = (not notice) and rng.random() < 0.5
@@ -27,8 +35,12 @@ def gen_case(rng, root):
             s["rules"] = ([["ALLOW", "*"]], [["ALLOW", "*"]])
         if same_arts:   # identical artifacts everywhere: only the signed name distinguishes the links
             s["materials"], s["products"] = ch.steps[0]["materials"], ch.steps[-1]["products"]
-        fmt = rng.choice(["metablock", "dsse"])
-        s["links"] = [scen.link_spec(shared, fmt, s["name"], s["materials"], s["products"])]
+        fmt = "metablock" if gpg_signer else rng.choice(["metablock", "dsse"])
+        if gpg_signer:
+            s["links"] = [scen.link_spec(gpg_signer, fmt, s["name"], s["materials"], s["products"], signer=gpg_signer,
+                                         kid=gpg_signer.keyid)]
+        else:
+            s["links"] = [scen.link_spec(shared, fmt, s["name"], s["materials"], s["products"])]
     ch.layout_keys = {shared.keyid: shared.pub, second.keyid: second.pub}
     a, b = rng.sample(range(n), 2)
     A, B = ch.steps[a], ch.steps[b]
@@ -43,6 +55,8 @@ def gen_case(rng, root):
         A["links"] = []
     desc = {"steps": n, "from": A["name"], "to": B["name"], "how": how, "own_evidence": keep_own,
             "rules_notice": notice, "same_artifacts": same_arts, "fmt": replay_link["fmt"],
+            "shared_functionary": "gpg master, signed by %s" % ("a subkey" if gpg_signer is not shared else "the master")
+            if gpg_signer else shared.kind,
             "expected_accept": keep_own == "second" and how == "copy"}
     return ch, desc
 
